@@ -179,6 +179,10 @@ def tokenize_body(s: str):
         elif c == "[":
             d, j = 1, i + 1
             while j < n and d:
+                if s[j] == "#":                      # a comment inside the group: brackets in it do not count
+                    while j < n and s[j] not in "\n\r":
+                        j += 1
+                    continue
                 d += (s[j] == "[") - (s[j] == "]")
                 j += 1
             if d:
